@@ -51,6 +51,8 @@ pub struct SockState {
     pub fail_all_writes: Option<io::ErrorKind>,
     /// bytes already taken by a `LateAck` write that has not reported back yet
     pub late_ack: Option<usize>,
+    /// how many times the end of the stream has been reported to the reader
+    pub eof_reads: u64,
     // scripted properties
     pub can_pass_fd: bool,
     pub uid: Option<u32>,
@@ -134,6 +136,7 @@ impl ReadHalf for SRead {
                 None => {
                     if s.eof_when_empty {
                         s.io_events += 1;
+                        s.eof_reads += 1;
                         return Poll::Ready(Ok((0, vec![])));
                     }
                     s.read_waker = Some(cx.waker().clone());
@@ -141,6 +144,7 @@ impl ReadHalf for SRead {
                 }
                 Some(RItem::Eof) => {
                     s.io_events += 1;
+                    s.eof_reads += 1;
                     s.inbound.push_front(RItem::Eof);
                     Poll::Ready(Ok((0, vec![])))
                 }
